@@ -61,6 +61,9 @@ CURRENT = {}
 
 
 def run(M, rec, tier, seed, k, n):
+    import numpy as np
+
+    np.seterr(all="ignore")
     rng = random.Random(seed * 1000 + k)
     try:
         rec.extra["oracle_selfcheck_max_rel_dev"] = selfcheck.run_selfcheck()
